@@ -76,7 +76,9 @@ class HistSystem:
         net.log = []
         model = {"cache": None, "newest": -1}  # cache: (version, bytes)
         client = mk_client()
+        other = mk_client()  # a second live client of the same institution (another thread's, another window's)
         calls_on_instance = 0
+        calls_on_other = 0
         fails = []
         sent_bodies = []
         for i, (beh, inst) in enumerate(history):
@@ -120,12 +122,15 @@ class HistSystem:
             try:
                 with warnings.catch_warnings():
                     warnings.simplefilter("ignore")
-                    ret = client.request_profile()
+                    ret = (other if inst == "other" else client).request_profile()
                     data = ret.read()
                 err = None
             except Exception as e:
                 data, err = None, e
-            calls_on_instance += 1
+            if inst == "other":
+                calls_on_other += 1
+            else:
+                calls_on_instance += 1
             after = cache_files()
             # ---- model step
             cv = cached[0] if cached else None
@@ -176,20 +181,24 @@ class HistSystem:
                         fail("bad-answer-accepted", f"call returned {len(data or b'')} bytes")
                     if after != before:
                         fail("failed-call-changed-the-cache", f"before {[(k, len(v)) for k, v in before.items()]} after {[(k, len(v)) for k, v in after.items()]}")
-        key = (model["cache"] is not None, calls_on_instance)
+        key = (model["cache"] is not None, calls_on_instance, calls_on_other)
         return key, fails
 
 
-def part_histories(args):
-    depth, = args
+def hist_chunk(chunk):
     private_xdg()
-    t = Tally()
     s = HistSystem()
     try:
-        events = [(b, i) for b in BEHAVIOURS for i in ("same", "fresh")]
-        r = xstate.bfs(s, events, depth, t)
+        return [(h, ) + tuple(s.replay(h)) for h in chunk]
     finally:
         s.net.uninstall()
+
+
+def part_histories(args, workers=1):
+    depth, = args
+    t = Tally()
+    events = [(b, i) for b in BEHAVIOURS for i in ("same", "other", "fresh")]
+    r = xstate.bfs_pool(workers, hist_chunk, events, depth, t)
     t.count("states", r["states"])
     t.count("transitions", r["transitions"])
     for smp in r["samples"][:2]:
@@ -542,7 +551,7 @@ def dispatch(chunk):
 
 
 def run(ctx):
-    jobs = [("hist", (5 if ctx.quick else 7,))]
+    jobs = []
     for sc in ("first-write", "overwrite-longer", "overwrite-shorter"):
         jobs.append(("crash", (sc, "coarse" if ctx.quick else "fine")))
     sconf = []
@@ -556,6 +565,7 @@ def run(ctx):
         sconf.append(("with-old-cache", 3, 2, False))
     jobs.append(("two", ()))
     tally = ctx.pmap(dispatch, jobs, chunk=1)
+    tally.merge(part_histories((5 if ctx.quick else 7,), ctx.workers))
     explore_schedules(ctx, tally, sconf)
     pm = tally.counts.pop("points_max", 0)
     if tally.counts.get("transitions", 0) < 100 or tally.counts.get("crash-states", 0) < 10 or tally.counts.get("schedules", 0) < 20:
@@ -570,8 +580,8 @@ def run(ctx):
         "server_pairs": tally.counts.get("server-pairs", 0),
         "max_points_per_schedule": pm,
         "schedule_exploration_capped": bool(tally.counts.get("capped")),
-        "rule": f"(1) BFS to depth {5 if ctx.quick else 7} over 14 events (7 server behaviours x same/fresh client instance), model = dict cache, key = (cache present, calls made on the "
-        "current instance) so that hidden per-instance state cannot hide behind de-duplication; every transition replays the history on the real request_profile and compares the request's "
+        "rule": f"(1) BFS to depth {5 if ctx.quick else 7} over 21 events (7 server behaviours x (the current client / a second live client of the same institution / a fresh instance replacing the current one)), model = dict cache, key = (cache present, calls made on the "
+        "current instance, calls made on the second client) so that hidden per-instance state cannot hide behind de-duplication; every transition replays the history on the real request_profile and compares the request's "
         "DTPROFUP, success/failure, returned bytes and cache file with the model; (2) 3 cache-writing scenarios (first write, overwrite with longer, with shorter) x every crash state "
         f"(every prefix of the file-operation log x torn prefixes of pending writes, {'coarse' if ctx.quick else 'every byte'}) -> recovery by a fresh client; (3) 2 concurrent "
         f"request_profile calls on one client (no cache / an older cache / an older cache with one caller told 'up to date' and the other sent a newer profile), {'preemption bound 2' if ctx.quick else 'all interleavings'} "
